@@ -292,6 +292,14 @@ def check_roundtrip(ctx, arg, xml_bytes, label):
                 ctx.ambiguous()
                 pa = dict(pa, measures=sorted([(None,) + m_[1:] for m_ in pa["measures"]], key=repr))
                 pb = dict(pb, measures=sorted([(None,) + m_[1:] for m_ in pb["measures"]], key=repr))
+            # grace notes that were never linked into a run or to a main note (the MEI importer leaves them so): the file
+            # cannot say "unlinked", the reader links them by position
+            unlinked = {r_[1] for r_ in pa["notes"] if r_[0] == "GraceNote" and r_[-1] == (None, None)}
+            if unlinked:
+                ctx.ambiguous()
+                drop = lambda rows: sorted([r_[:-1] + (None,) if (r_[0] == "GraceNote" and r_[1] in unlinked) else r_ for r_ in rows], key=repr)  # noqa
+                pa = dict(pa, notes=drop(pa["notes"]))
+                pb = dict(pb, notes=drop(pb["notes"]))
             bf_times = [x[0] for x in pa["barline_fermatas"]]
             if len(set(bf_times)) != len(bf_times):
                 # several barline fermatas at one position (unfolding copies one per adjoining segment): which side of the
@@ -403,7 +411,7 @@ def plan(tier, seed):
     if tier == "quick":
         other = corpora.kern_files()[:4] + corpora.mei_files()[:3] + corpora.midi_files()[:1]
     items += [["fixture-other", f] for f in other]
-    items += [["divchange", i] for i in range(n // 4)]
+    items += [["divchange", i] for i in range(n // 2)]
     return items
 
 
